@@ -13,8 +13,10 @@ for mf in sorted(glob.glob(os.path.join(ROOT, "seeded", "*", "meta.json"))):
     files = sorted(set(re.findall(r"^\+\+\+ b/(\S+)", patch, re.M)))
     what = m.get("summary") or m["needs_to_manifest"][:150].replace("|", "/")
     rules = "; ".join("%s: %s" % (c, ", ".join(sorted({r.split("@")[0] for r in v}))) for c, v in sorted(m["rules_reported"].items()))
+    nov = sorted(m.get("analysis_errors") or [])
+    missed = "**none - no verdict (ANALYSIS-ERROR) from %s**" % ", ".join(nov) if nov else "**none (missed: declined clause)**"
     rows.append("| %s | %s | %s | %s | %s |" % (m["id"], m["breaks_property"], ", ".join(f.replace("anytree/", "") for f in files),
-                                              rules or "**none (missed)**", "yes" if m["caught_by_own_property_check"] else ("other check" if m["checks_that_fire"] else "no")))
+                                              rules or missed, "yes" if m["caught_by_own_property_check"] else ("other check" if m["checks_that_fire"] else ("no verdict" if nov else "no"))))
 table = "| id | property | files touched | checks → rules that fire | caught by its own property's check |\n|---|---|---|---|---|\n" + "\n".join(rows)
 p = os.path.join(ROOT, "DESIGN.md")
 s = open(p).read()
@@ -23,5 +25,5 @@ if a in s:
     s = s[: s.index(a) + len(a)] + "\n" + table + "\n" + s[s.index(b):]
     open(p, "w").write(s)
 n_all = len(rows)
-print("%d seeded changes; %d caught by some check; %d by their own property's check" % (
-    n_all, sum(1 for r in rows if "none (missed)" not in r), sum(1 for r in rows if r.endswith("| yes |"))))
+print("%d seeded changes; %d caught by some check; %d no verdict; %d by their own property's check" % (
+    n_all, sum(1 for r in rows if "**none" not in r), sum(1 for r in rows if "no verdict (ANALYSIS" in r), sum(1 for r in rows if r.endswith("| yes |"))))
